@@ -1,0 +1,34 @@
+//go:build verif
+
+// Contracts for package cpu, read as text by /verif/engine (govc); no code.
+// The functions here are assembly stubs: their contracts are ASSUMED and describe the
+// instruction's architectural effect on ghost copies of the registers involved.
+
+package cpu
+
+//@ mode bv
+
+// TLB invalidations, in program order
+//@ ghost flushes uintptr
+//@ ghost flushLog map[uintptr]uintptr
+// CR3 (physical address of the active top-level table) and CR2 (faulting address)
+//@ ghost cr3 uintptr
+//@ ghost cr2 uint64
+
+//@ func FlushTLBEntry(virtAddr uintptr)
+//@   trusted
+//@   modifies flushes, flushLog
+//@   ensures flushes == old(flushes) + 1 && flushLog == upd(old(flushLog), old(flushes), virtAddr)
+
+//@ func ActivePDT() (a uintptr)
+//@   trusted
+//@   ensures a == cr3
+
+//@ func SwitchPDT(pdtPhysAddr uintptr)
+//@   trusted
+//@   modifies cr3
+//@   ensures cr3 == pdtPhysAddr
+
+//@ func ReadCR2() (v uint64)
+//@   trusted
+//@   ensures v == cr2
